@@ -299,6 +299,7 @@ class World:
         self.algod_log: list = []
         self.resolved_ops: list = []
         self.base_depth = None
+        self.errmsgs: list = []  # free text (may contain ids/addresses): never compared
 
     def fired(self, kind):
         self.faults_fired[kind] = self.faults_fired.get(kind, 0) + 1
@@ -430,11 +431,13 @@ class World:
                     Injector.stop()
                 if out[0] == "abort":
                     self.fired("abort")
-                    for b, bit in TAGNAMES.items():
-                        pass
                     if fault.get("bias_hit"):
                         self.fired("abort@" + fault["bias"])
                     self._after_abort(op)
+                    if op["op"] == "build" and op["p"] not in self.retired:
+                        # the partial statement is discarded and rebuilt at once (same op)
+                        out2 = self._guarded(op)
+                        out = ("abort+retry:" + out2[0],) + tuple(out2[1:])
         elif fault and fault["kind"] == "reclimit":
             old = sys.getrecursionlimit()
             sys.setrecursionlimit(_depth() + fault["headroom"])
@@ -463,6 +466,7 @@ class World:
             ev["d"] = [sha(out[1]), sha(out[2])]
         elif out[0] == "err":
             ev["cls"] = out[1]
+            self.errmsgs.append([idx, out[1], out[2]])
         elif out[0] == "skip":
             ev["why"] = out[1]
         elif out[0] == "ok" and op["op"] == "probe":
@@ -521,7 +525,7 @@ class World:
 
     def run(self) -> dict:
         for idx, op in enumerate(self.job["ops"]):
-            self.step(idx, op)
+            self.step(op.get("oi", idx), op)
         return {
             "events": self.events,
             "observations": self.observations,
@@ -530,6 +534,7 @@ class World:
             "probes": Probes.counters,
             "retired": sorted(self.retired),
             "algod_log": self.algod_log,
+            "errmsgs": self.errmsgs,
         }
 
 
